@@ -19,7 +19,8 @@ def run(ctx, model_ok):
     ctx.cov["evaluations"] = ost["c19_figures"]
     ctx.cov["distinct_nontrivial"] = ost["c19_figures"]
     ctx.cov["rule"] = ("one plotly figure per case: Cuboid / Cylinder / Sphere / Circle / Polyline with random size, path of 1-3 random poses (all frames shown), "
-                       "length unit m/mm/km/cm, bare or inside a Collection; every case has fresh random geometry and poses")
+                       "length unit m/mm/km/cm, bare or inside a Collection; every case has fresh random geometry and poses; map-back figures for Tetrahedron / Triangle / "
+                       "TriangularMesh / CylinderSegment / Dipole / Sensor; one figure per unit prefix")
     ctx.cov["traces_validated_against_impl"] = ost["c19_figures"]
     ctx.cov["samples"] = [ost] + (corr.pop("samples") if corr else [])
     if corr:
@@ -40,16 +41,28 @@ def run(ctx, model_ok):
                             "(N 0..30) and vertices, merge_mesh3d / merge_scatter3d on random small integer traces (error kinds, None separators, first-input mutation counted), make_path + "
                             "rescale_traces bit-exact, unit_prefix / get_unit_factor for 10^k * {0.999, 1, 1.001, 5}, k = -27..27, nextafter neighbours of powers of ten and random values, "
                             "get_scene_ranges + rmax + auto unit on random scatter / mesh traces bit-exact")
-    ctx.cov["not_shown"] = ["make_Sensor, arrow traces of currents (draw_arrow_on_circle / draw_arrow_from_vertices), group_traces (which traces are put into one group: the "
-                            "string key built from legendgroup / opacity / row / col / color / ...), merge_traces' dispatch by type, subdivide_mesh_by_facecolor, "
-                            "plotly/matplotlib/pyvista glue: display oracle only (plotly backend; matplotlib/pyvista not exercised). Modelled and tied since the ninth batch "
+    ctx.cov["rule"] += ("; wind rows: directed edges not used exactly once / without reverse of the REAL index arrays of make_CylinderSegment (arc count 5..60, caps and "
+                        "full ring), make_Ellipsoid (0..24), make_Prism / make_Pyramid (0..60), make_Arrow (0..40), make_Cuboid, make_Tetrahedron against Display.windingDefects / "
+                        "unmatchedEdges of the model triangulation, exact; group rows: group_traces on 1-7 random trace dicts (mesh3d / scatter3d / other type, random subsets of "
+                        "the key properties from pools with colliding concatenations, nested and flat line / marker dicts, copies of earlier traces) against Display.groupTraces: "
+                        "which inputs end in which output trace, in order, exact")
+    ctx.cov["not_shown"] = ["make_Sensor and the arrow traces of currents (draw_arrow_on_circle / draw_arrow_from_vertices) have no Lean model (display oracle only: pixel cubes "
+                            "centred on the sensor-frame pixel positions placed by the pose, axes glyph starting at the sensor position, Dipole arrow through the position along the moment); "
+                            "subdivide_mesh_by_facecolor, plotly/matplotlib/pyvista glue: display oracle only (plotly backend; matplotlib only in the no-alteration sweep, pyvista not exercised). "
+                            "group_traces / merge_traces: modelled on linearised traces (type, str(value) of the present keys, facecolor-is-None) - group_traces_partition, "
+                            "group_traces_merges_within_group; linearize_dict itself (nesting depth > 1) and the arrays inside the merged traces (merge_mesh3d / merge_scatter3d theorems "
+                            "are about Display.mergeMesh3d / mergeScatter3d, composed by hand, not in one model function) are not; the key string is built without separators: "
+                            "group_key_collision_witness (row 1 col 12 / row 11 col 2) - on the real code show() of one object in these two subplots raises KeyError. Modelled and tied since the ninth batch "
                             "(Model/DisplayIdx.lean, rows ellidx / segidx / arrow / arrowv / mmesh / mscat / path / autounit / ranges): index arrays of make_Ellipsoid (closed for every "
                             "N >= 4: ellipsoid_mesh_closed) and make_CylinderSegment (closed for every arc count whenever phi2 - phi1 != 360: cylinder_segment_mesh_closed; exactly 360: "
                             "no caps and the seam columns are different rows holding the same points, 8 index-level open edges, cylinder_segment_full_turn_seam_open), make_Arrow, "
                             "merge_mesh3d / merge_scatter3d, make_path + rescale_traces, unit_prefix / get_unit_factor as used by units_length='auto', get_scene_ranges for one subplot",
-                            "CylinderSegment winding: the two triangles of the START cap are wound opposite to the rest of the surface (cylinder_segment_start_cap_winding_witness, "
-                            "decided for arc count 5; the cap index pattern does not depend on the size) - not proved for every N; consistent orientation of the Ellipsoid triangulation "
-                            "is checked by the probe for N = 4..41 but is not a theorem",
+                            "CylinderSegment winding: for EVERY arc count N >= 2 the two triangles of the START cap are wound opposite to the rest of the surface "
+                            "(cylinder_segment_winding_partial: the four directed edges a0>b0>d0>c0>a0 are used twice, their reverses never, every other directed edge and its reverse "
+                            "exactly once; turning over exactly these two triangles gives a closed consistently wound surface) - the FULL statement 'consistently wound' is false of "
+                            "this tree. Cuboid and Tetrahedron are consistently wound (decide). Consistent winding of make_Ellipsoid / make_Prism / make_Pyramid / make_Arrow for every N "
+                            "is NOT a theorem: the wind rows find no defect for Ellipsoid N = 4..24, Prism / Pyramid N = 3..60, Arrow N = 3..40 (Pyramid and the Arrow's cone have an "
+                            "open base ring, consistently directed)",
                             "merge_mesh3d model: x/y/z/i/j/k mandatory (the real function skips i/j/k missing from the FIRST trace), intensity / facecolor as optional arrays, other "
                             "entries as opaque tags; a later trace whose facecolor / intensity is None while the first has an array (numpy would hstack the None) is not in the model; "
                             "merge_scatter3d: the theorem needs the two string facts 'mode non-empty' and '\"line\" in mode' as hypotheses (string literals do not reduce in the "
@@ -66,7 +79,9 @@ def run(ctx, model_ok):
                             "sin(fl(2pi))*d/2 ~ 1.2e-16 d in double, equal in exact arithmetic)",
                             "frames: 'the last path row is always displayed' and 'no row is drawn twice' hold only for the show_path classes named in "
                             "frames_contains_last_partial / frames_rows_strictly_increasing_partial (witness theorems show the exclusions are necessary)",
-                            "CylinderSegment, Tetrahedron, TriangularMesh, Triangle, Dipole, Sensor graphics are not mapped back by the oracle",
+                            "map back (oracle, no theorem): Tetrahedron / Triangle / TriangularMesh drawn vertex set = object's vertices at every displayed pose (+ signed volume), "
+                            "CylinderSegment radii / height / azimuth range / 8 corners, Dipole arrow axis through the position along the moment (pivot), Sensor pixel cubes and axes glyph; "
+                            "one scene per unit prefix of _UNIT_PREFIX (+ d, c) with explicit units_length: axis titles and drawn corners = metres * 10^(-power)",
                             "placement: place_is_pose / place_inverse / place_preserves_extent are about Display.place (Model/Display.lean), the vertex map of Display.placeModel "
                             "(= place_and_orient_model3d; placeModel_vertices, placeModel_early_return), executed by the driver (`disp place`) and compared with the real function by the "
                             "place rows of the disp stream on dyadic data (integer vertices / positions, octahedral rotations, scale and length factor powers of two; real values snapped to the "
@@ -77,7 +92,7 @@ def run(ctx, model_ok):
                             "'spans the full extent': Cylinder graphic x = -d/2 only for even N and y = +-d/2 only when 4 | N (default 50: not); Sphere graphic: only the z-extent (poles); "
                             "CylinderSegment: the 8 corners",
                             "'displaying never modifies objects, styles or defaults' (style_temp_edit), axis title unit = factor applied by rescale_traces for an EXPLICIT units_length, "
-                            "collections / nesting: no model and no theorem, display oracle only; unit_factor_table is a decide over the 18 recorded outputs of get_unit_factor"]
+                            "collections / nesting: no model and no theorem, display oracle only; unit_factor_table / unit_table_powers are decides over the 18 recorded outputs of get_unit_factor (every power of _UNIT_PREFIX incl. 6..24 = M..Y, and d, c)"]
 
 
 def replay(ctx, payload):
